@@ -7,7 +7,7 @@ ENGINE = "pyvc executor's encoding of the Python subset (DESIGN 1.3): ints exact
 
 
 def C04():
-    from contracts.replay_pagination import replay_row_metadata
+    from contracts.replay_pagination import replay_row_metadata, replay_reserved_rows
     from contracts.pagination_core import AssignPages
     from contracts.replay_pagination import replay_assign_pages
     return Property(
@@ -19,7 +19,8 @@ def C04():
                   "strategy when subline_by is set, else page_by, else default, and hands it the caller's body and the reservation; VCs by z3/cvc5",
         trusted_base=[SOLVERS, ENGINE, POLARS],
         assumptions=["str() injective on non-null group keys of one dtype (the flag computation compares str(value))"],
-        replayers={"pagination/core.py::PageBreakCalculator._assign_pages": replay_assign_pages, "pagination/core.py::PageBreakCalculator.calculate_row_metadata": replay_row_metadata},
+        replayers={"pagination/core.py::PageBreakCalculator._assign_pages": replay_assign_pages, "pagination/core.py::PageBreakCalculator.calculate_row_metadata": replay_row_metadata,
+                   "services/document_service.py::": replay_reserved_rows},
         design_ref="4/C04, A1",
     )
 
@@ -106,7 +107,8 @@ def C10():
         assumptions=["domain: Unicode scalar values except C0/C1 controls and the raw RTF metacharacters \\ { } (C01's hypothesis on text)",
                      "the cell / paragraph / plain templates of TextContent._as_rtf and the subline_by heading use the escaped text exactly once (units "
                      "TextAsRtf, SublineHeader); the paragraph_format re-wrap in _encode_text receives only escaped runs (unit EncodeText)"],
-        replayers={"row.py::TextContent._convert_special_chars": R.replay_convert_special_chars},
+        replayers={"row.py::TextContent._convert_special_chars": R.replay_convert_special_chars, "encoding/": R.replay_unicode_document,
+                   "services/": R.replay_unicode_document, "attributes.py::": R.replay_unicode_document, "row.py::TextContent._as_rtf": R.replay_unicode_document},
         design_ref="4/C10, A13",
     )
 
@@ -250,7 +252,7 @@ def C15():
 
 def C01():
     from contracts.emitters import UNITS as EM
-    from contracts.attributes import EncodeRows
+    from contracts.attributes import EncodeRows, Iloc, ToList, UpdateCell
     from contracts.encoder import EncodeCtx
     from contracts.row import ColWidths, ConvertSpecialChars, LEMMAS
     from contracts.placement import PageBreak, PageSettings
@@ -263,11 +265,13 @@ def C01():
     units = [ContractUnit(u) for u in EM] + [ContractUnit(EncodeRows()), ContractUnit(EncodeCtx()), ContractUnit(ColWidths()),
              ContractUnit(ConvertSpecialChars()), ContractUnit(PageBreak()), ContractUnit(PageSettings()), ContractUnit(EncodeSingleFigure()),
              ContractUnit(GenerateColorTable()), ContractUnit(EncodeColumnHeader()), ContractUnit(RenderColumnHeaders()),
-             ContractUnit(SublineHeader()), ContractUnit(EncodeSpanningRow()), _figure_doc_unit(), _multi_section_unit()] + _text_units() + _note_units() + LEMMAS
+             ContractUnit(SublineHeader()), ContractUnit(EncodeSpanningRow()), _figure_doc_unit(), _multi_section_unit(),
+             ContractUnit(Iloc()), ContractUnit(ToList()), ContractUnit(UpdateCell())] + _text_units() + _note_units() + LEMMAS
     return Property(
         "C01", units=units, level="proof",
         technique="measure contracts (brace balance / minimal prefix balance / ASCII / integral parameters) on the real emitters' f-strings, row-shape "
-                  "contract #cellx == #cell, document skeleton and prolog order on UnifiedRTFEncoder.encode, safety obligations (implicit exceptions) in every unit",
+                  "contract #cellx == #cell, document skeleton and prolog order on UnifiedRTFEncoder.encode, safety obligations (implicit exceptions) in every unit; "
+                  "BroadcastValue.iloc / to_list / update_cell: the expanded grid has the full table shape for every pattern length (no IndexError downstream)",
         trusted_base=[SOLVERS, ENGINE, "homomorphism laws of bal/low/ascii over concatenation (DESIGN 1.5)", "RTF reader reads the literal chunk shapes as the RTF specification says (L4)",
                       "pydantic model construction = record construction after declared-type coercion"],
         assumptions=["user text is balanced w.r.t. unescaped braces (the property's own hypothesis)",
@@ -277,7 +281,7 @@ def C01():
                    "services/document_service.py::": R.replay_page_geometry, "rtf/syntax.py::": R.replay_page_geometry,
                    "services/figure_service.py::": R.replay_figures, "services/color_service.py::": R.replay_color_index,
                    "encoding/unified_encoder.py::": R.replay_purity, "encoding/renderer.py::": D("wellformed"),
-                   "services/encoding_service.py::": D("wellformed")},
+                   "services/encoding_service.py::": D("wellformed"), "attributes.py::": D("wellformed"), "pagination/": D("wellformed")},
         design_ref="4/C01, A14")
 
 
@@ -420,9 +424,10 @@ def C09():
 def C13():
     from contracts.grouping import UNITS, LEMMAS
     from contracts.postprocess import ApplyDataPostProcessing
+    from contracts.validators_doc import BodyKeysValidator
     from contracts import replayers as R
     return Property(
-        "C13", units=[ContractUnit(u) for u in UNITS] + [ContractUnit(ApplyDataPostProcessing(), variants=["group_by"])] + LEMMAS, level="proof",
+        "C13", units=[ContractUnit(u) for u in UNITS] + [ContractUnit(ApplyDataPostProcessing(), variants=["group_by"]), ContractUnit(BodyKeysValidator())] + LEMMAS, level="proof",
         technique="Kleene-semantics model of the polars expression fragment; whole-frame postconditions on the real _suppress_single_column / "
                   "_suppress_hierarchical_columns (2 and 3 levels) / restore_page_context (loop invariant over page starts) / validate_data_sorting "
                   "(seen-set invariant, exceptional postcondition) + contiguity lemma; enhance_group_by (the dispatcher): order validated for exactly these "
@@ -432,7 +437,8 @@ def C13():
                       "with_columns evaluating pl.col on its receiver); null is a single value"],
         assumptions=["the deeper levels of validate_data_sorting (composite string key; injectivity precondition) are not yet under contract in this check; "
                      "the page start indices handed to restore_page_context are proved to be the first rows of pages 2..P (unit ApplyDataPostProcessing)"],
-        replayers={"services/grouping_service.py::": R.replay_grouping, "encoding/unified_encoder.py::": R.replay_group_by_pipeline}, design_ref="4/C13, A18")
+        replayers={"services/grouping_service.py::": R.replay_grouping, "encoding/unified_encoder.py::": R.replay_group_by_pipeline,
+                   "input.py::": R.replay_group_by_pipeline}, design_ref="4/C13, A18")
 
 
 def C20():
@@ -473,16 +479,19 @@ def C11():
 
 def C17():
     from contracts.assemble import UNITS, LEMMAS, BOUNDED
+    from contracts.encoder import EncodeCtx
+    from contracts import replayers as R
     return Property(
-        "C17", units=[ContractUnit(u) for u in UNITS] + LEMMAS + BOUNDED, level="proof",
+        "C17", units=[ContractUnit(u) for u in UNITS] + LEMMAS + BOUNDED + [ContractUnit(EncodeCtx()), _figure_doc_unit(), _multi_section_unit()], level="proof",
         technique="loop invariants with ghost offsets on the real assemble_rtf (lines as opaque values): output = first input minus its lone closing line, "
                   "then per later input '\\page' + its lines from find_start_index on; nested find_start_index proved = last fcharset line + 2; effect "
                   "trace: existence check before any open, nothing written for [] or a missing input, one write to the output path",
         trusted_base=[SOLVERS, ENGINE, "open/readlines/writelines/os.path.exists as functions of the path during the call (assumed)",
                       "layout of files written by rtflite (font table ends two lines before the body; last line is a lone closing brace): C01 skeleton + bounded read-back"],
         assumptions=["inputs are non-empty files written by rtflite (C01 documents)",
-                     "well-formedness of the assembled text follows from the structural contract plus the layout assumption; the read-back of real assembled files is a bounded stand-in"],
-        replayers={}, design_ref="4/C17, A20")
+                     "well-formedness of the assembled text follows from the structural contract plus the layout assumption (skeleton units EncodeCtx / FigureOnly / "
+                     "MultiSection: the document's closing chunk is appended last, on its own line); the read-back of real assembled files is a bounded stand-in"],
+        replayers={"assemble.py::": R.replay_assemble, "encoding/unified_encoder.py::": R.replay_assemble}, design_ref="4/C17, A20")
 
 
 def C03():
@@ -491,8 +500,12 @@ def C03():
     from contracts.headers import RenderColumnHeaders
     from contracts.strwidth import GetStringWidth
     from contracts.replay_pagination import replay_assign_pages
+    from contracts.renderer import RenderBody
+    from contracts.replay_docs import replayer_any
+    DOCS = replayer_any(["heading_count", "rows_per_page"])
     return Property(
-        "C03", units=_budget_units() + [ContractUnit(AssignPages()), ContractUnit(GetStringWidth()), _section_unit(), ContractUnit(RenderColumnHeaders())]
+        "C03", units=_budget_units() + [ContractUnit(AssignPages()), ContractUnit(GetStringWidth()), _section_unit(), ContractUnit(RenderColumnHeaders()),
+                                        ContractUnit(RenderBody())]
         + _strategy_units(), level="proof",
         technique="budget inequalities carried by contracts on the real code: reserved rows = [subline] + #headers with text + [footnote] + [source] "
                   "(counting invariant); per row data_rows >= 1 and >= int(W/width)+1 >= ceil(W/width) for every displayed cell at that cell's own font and "
@@ -500,11 +513,14 @@ def C03():
                   "sum within max(1, nrow - reserved) or to a single row; composition lemmas",
         trusted_base=[SOLVERS, ENGINE, POLARS, "W = get_string_width is the line-width oracle the property names; floats as reals (L3)"],
         assumptions=["rendered <= reserved is checked for column headers (a header row is rendered only for a header whose own text is set, which is what the "
-                     "reservation counts; the auto-populated default header is the recorded known finding); for page-top / continuation group headings "
-                     "and table-rendered footnote/source the comparison is not yet under contract in this check",
+                     "reservation counts; the auto-populated default header is the recorded known finding) and for the page_by headings inside a page (unit RenderBody: a "
+                     "heading row only for a level at or below a level whose value changes at that group start, which is what RowMetadata counts); for "
+                     "table-rendered footnote/source rows the comparison is by the reservation count only",
                      "one column width per displayed column and the reservation reaching the strategy are proved at the call site (unit EncodeBodySection) "
                      "relative to the assumed result of prepare_dataframe_for_body_encoding"],
-        replayers={"pagination/core.py::PageBreakCalculator._assign_pages": replay_assign_pages, "pagination/core.py::PageBreakCalculator.calculate_row_metadata": replay_row_metadata, "services/document_service.py::": replay_reserved_rows}, design_ref="4/C03, A2-A3")
+        replayers={"pagination/core.py::PageBreakCalculator._assign_pages": replay_assign_pages, "pagination/core.py::PageBreakCalculator.calculate_row_metadata": replay_row_metadata, "services/document_service.py::": replay_reserved_rows,
+                   "encoding/renderer.py::": DOCS, "encoding/unified_encoder.py::": DOCS, "pagination/strategies/": DOCS, "pagination/core.py::PageBreakCalculator._calculate_header_rows": replay_row_metadata},
+        design_ref="4/C03, A2-A3")
 
 
 PROPERTIES = {"C03": C03, "C17": C17, "C11": C11, "C20": C20, "C13": C13, "C01": C01, "C02": C02, "C05": C05, "C07": C07, "C09": C09, "C14": C14, "C15": C15, "C18": C18, "C04": C04, "C06": C06, "C08": C08, "C10": C10, "C12": C12, "C16": C16, "C19": C19}
